@@ -603,18 +603,16 @@ theorem designated_by_name1 (h : Host) (m : Mem) (f : Fn1) (a : List Nat) :
     designated h m f.name a = designated1e h m f a := by
   cases f <;> simp [designated, Fn2.all, Fn2.name, Fn1.all, Fn1.name]
 
-/-- where the first batch writes: inside the memory and inside the designated regions — 19 of its 22 functions.
-Left out: poll_oneoff (writeEvent offsets), fd_read / fd_pread (the iovec entries are read from the live memory
-while earlier buffers are being filled: a buffer that covers a later entry changes where the next write goes, so
-"the regions named by the iovec array at call time" is not what the code honours — see docs). -/
-theorem call1e_writes (fixed fixedRead : Bool) (h : Host) (ha : HostArgsOk h) (fds : Fds) (m : Mem)
-    (hs : m.size < 9223372036854775808) (f : Fn1)
-    (hf : f ≠ Fn1.poll_oneoff ∧ f ≠ Fn1.fd_read ∧ f ≠ Fn1.fd_pread) (a : List Nat) (r : Res)
-    (hc : call1e fixed fixedRead h fds m f a = some r) : Wr1 m (designated1e h m f (a.map w32)) r := by
+/-- where the first batch writes: inside the memory and inside the designated regions — 21 of its 22 functions
+(repaired `readv`, F62; `readv_alias_witness` shows the statement is false for fd_read on the pinned tree).
+Left out: poll_oneoff (writeEvent offsets). -/
+theorem call1e_writes (fixed : Bool) (h : Host) (ha : HostArgsOk h) (fds : Fds) (m : Mem) (hb : Bytes m)
+    (hs : m.size < 9223372036854775808) (f : Fn1) (hf : f ≠ Fn1.poll_oneoff) (a : List Nat) (r : Res)
+    (hc : call1e fixed true h fds m f a = some r) : Wr1 m (designated1e h m f (a.map w32)) r := by
   cases f
-  case poll_oneoff => exact absurd rfl hf.1
-  case fd_read => exact absurd rfl hf.2.1
-  case fd_pread => exact absurd rfl hf.2.2
+  case poll_oneoff => exact absurd rfl hf
+  case fd_read => fs1_wcase hc (fdRead_wr1 h fds m hb _ _ _ _ (w32_lt _) (w32_lt _) hs)
+  case fd_pread => fs1_wcase hc (fdPread_wr1 fds m hb _ _ _ _ (w32_lt _) (w32_lt _) hs)
   case fd_write => fs1_wcase hc (fdWrite_wr1 fds m _ _ _ _ (w32_lt _) hs)
   case fd_pwrite => fs1_wcase hc (fdPwrite_wr1 fds m _ _ _ _ (w32_lt _) hs)
   case args_get => fs1_wcase hc (writeOffsetsAndValues_wr1 m h.args _ _ ha.1 ha.2.1 (w32_lt _) (w32_lt _) hs)
@@ -635,12 +633,12 @@ theorem call1e_writes (fixed fixedRead : Bool) (h : Host) (ha : HostArgsOk h) (f
   case proc_exit => fs1_wcase hc (wr1_nil _ _ _ rfl)
   case sched_yield => fs1_wcase hc (wr1_nil _ _ _ rfl)
 
-/-- **where a call writes, 43 of the 46 functions** (all but poll_oneoff, fd_read, fd_pread; repaired sock_recv):
+/-- **where a call writes, 45 of the 46 functions** (all but poll_oneoff; repaired sock_recv PEEK and readv):
 every write of every alternative lies inside the memory AND inside the regions `designated` gives for the function
 (the table that mirrors spec.go).  `m.size ≤ 2^32` is the wasm32 limit. -/
 theorem all_writes_in_memory_and_designated (fixed : Bool) (h : Host) (hh : HostNamesOk h) (ha : HostArgsOk h)
     (fds : Fds) (m : Mem) (hb : Bytes m) (hm : m.size ≤ 4294967296) (fn : String) (hfn : fn ∈ modelled)
-    (hne : fn ≠ "poll_oneoff" ∧ fn ≠ "fd_read" ∧ fn ≠ "fd_pread") (a : List Nat) (rs : List Res)
+    (hne : fn ≠ "poll_oneoff") (a : List Nat) (rs : List Res)
     (hc : call fixed true true h fds m fn a = some rs) :
     ∀ r ∈ rs, ∀ w ∈ r.writes, (w.len = 0 ∨ w.off + w.len ≤ m.size) ∧ Wr.within w (designated h m fn (a.map w32)) := by
   have hs : m.size < 9223372036854775808 := by omega
@@ -648,9 +646,9 @@ theorem all_writes_in_memory_and_designated (fixed : Bool) (h : Host) (hh : Host
   rcases List.mem_append.1 hfn with h1 | h2
   · obtain ⟨f, rfl⟩ := modelled1_enumerated fn h1
     obtain ⟨r, hr, rfl⟩ := call_fn1 fixed true true h fds m f a rs hc
-    have hf : f ≠ Fn1.poll_oneoff ∧ f ≠ Fn1.fd_read ∧ f ≠ Fn1.fd_pread := by
-      refine ⟨?_, ?_, ?_⟩ <;> (intro hf; subst hf; simp [Fn1.name] at hne)
-    have := call1e_writes fixed true h ha fds m hs f hf a r hr
+    have hf : f ≠ Fn1.poll_oneoff := by
+      intro hf; subst hf; simp [Fn1.name] at hne
+    have := call1e_writes fixed h ha fds m hb hs f hf a r hr
     intro r' hr' w hw
     simp only [List.mem_cons, List.not_mem_nil, or_false] at hr'
     subst hr'
